@@ -15,7 +15,10 @@ from .ref import armor as rarmor, keys as rkeys, sigs as rsigs, tkey as rtkey
 from .ref.wire import WireError, encode_packet, split_packets
 
 STEP_KINDS = ('direct_other', 'add_uid', 'add_uattr', 'add_subkey', 'rebind_subkey', 'recertify', 'certify_other', 'revoke_uid', 'revoke_subkey',
-              'revoke_key', 'add_revoker', 'del_uid', 'protect', 'derive_pub', 'drop_pub', 'copy_key', 'export_import', 'tick')
+              'revoke_key', 'add_revoker', 'del_uid', 'protect', 'derive_pub', 'drop_pub', 'copy_key', 'export_import', 'tick',
+              # opt-in kinds (weight 0 unless a property asks for them) stay at the end of the list
+              'revoke_subkey_by_other')
+OPT_IN_KINDS = ('revoke_subkey_by_other',)
 NAMES = ['Ann', 'Bea Long Name', 'Cy', 'Dée', 'Eve (x)', 'Flo', 'Jose\u0301 (decomposed)']
 
 
@@ -133,7 +136,7 @@ def uid_octets(u):
 def gen_step(rng, sid, knames, weights=None):
     kinds = list(STEP_KINDS)
     w = weights or {}
-    kind = rng.choices(kinds, [w.get(k, 1.0) for k in kinds])[0]
+    kind = rng.choices(kinds, [w.get(k, 0.0 if k in OPT_IN_KINDS else 1.0) for k in kinds])[0]
     st = {'id': sid, 'op': kind, 'key': rng.choice(knames)}
     others = [k for k in knames if k != st['key']] or knames
     st['other'] = rng.choice(others)
@@ -169,7 +172,7 @@ def gen_step(rng, sid, knames, weights=None):
         st['trust'] = rng.choice([None, None, [1, 60], [2, 120]])
     if kind == 'add_revoker':
         st['sensitive'] = rng.random() < 0.35
-    if kind in ('revoke_uid', 'revoke_subkey', 'revoke_key'):
+    if kind in ('revoke_uid', 'revoke_subkey', 'revoke_key', 'revoke_subkey_by_other'):
         st['reason'] = rng.choice([0, 1, 2, 3, 32])
         st['comment'] = rng.choice(['', 'gone'])
     if kind == 'protect':
@@ -494,6 +497,23 @@ class KeyHistory(object):
             sig = k.bind(sk, usage=world.flags_from(usage), **kw)
         sk |= sig
         ms.sigs.append(self._rec(bytes(sig), 'bind', name, usage=usage))
+
+    def _op_revoke_subkey_by_other(self, st, name, k, mk):
+        # a subkey revocation issued by another key of the universe (a designated revoker's, say): it belongs to the subkey it is
+        # attached to, whoever issued it and wherever the issuer's key stands in a keyring
+        on = st['other']
+        if on == name or on not in self.priv or self.priv[on].is_public or not mk.subs or self.cfg.get(on, {}).get('foreign_stub'):
+            return 'notarget'
+        ms = mk.subs[st['sub_index'] % len(mk.subs)]
+        sk = self._find_sub(k, ms)
+        if sk is None:
+            return 'sub-missing'
+        C = self.pgpy.constants
+        with self._unlocked(on):
+            sig = self.priv[on].revoke(sk, reason=C.RevocationReason(st.get('reason', 0)), comment=st.get('comment', ''))
+        sk |= sig
+        ms.sigs.append(self._rec(bytes(sig), 'rev_other', on))
+        self.ctx.probe('subkey_revocation_by_another_key')
 
     def _op_revoke_subkey(self, st, name, k, mk):
         if not mk.subs:
